@@ -381,5 +381,5 @@ def run(chk):
     chk.assumptions += ["the type's copyable/droppable flags are symbolic attributes (their computation is C14)",
                         "get_tracing_state / get_calling_frame / pathlib.Path are mocked",
                         "the 12 mutating methods of `list` are taken from the running CPython"]
-    chk.not_covered += ["GuppyDefinition / TracingDefMixin calls (trace_call) marking arguments used via _use_wire(called_func)", "update_packed_value: list (array) case; carriers nested deeper than one level"]
+    chk.not_covered += ["GuppyDefinition / TracingDefMixin calls (trace_call) marking arguments used via _use_wire(called_func)", "update_packed_value: carriers nested deeper than one level (the list case and plain Python components are obligations of C21)"]
     chk.use_engine(e)
